@@ -442,6 +442,7 @@ func main() {
 
 	// direct (in-process) correspondence lines of the modelled helpers
 	directOps(o, pool)
+	optsfmtOps(o, pool)
 
 	// the pseudo functions for the index / slice syntax on binaries
 	fns = append(fns, fnInfo{name: "@index", arity: 1, src: "syntax"}, fnInfo{name: "@slice", arity: 2, src: "syntax"})
@@ -655,6 +656,41 @@ func directOps(o *hlib.Out, p poolT) {
 		}
 		o.Case("opts "+pv.tok, obs)
 		o.Class("opts " + typeWord(pv.tok))
+	}
+}
+
+// optsfmt: the bits format function OptionsFromValue returns, run on 1000 zero bytes, for the
+// pool's option objects and every combined (bits_format, member) object. For "snippet" the
+// observation carries the size prefix, which shows the sizebase the closure captured.
+func optsfmtOps(o *hlib.Out, p poolT) {
+	var toks []string
+	for _, pv := range p.vals {
+		if strings.HasPrefix(pv.tok, "O(") {
+			toks = append(toks, pv.tok)
+		}
+	}
+	toks = append(toks, comboOptionTokens()...)
+	for _, t := range toks {
+		v, err := parseTok(t, p)
+		if err != nil {
+			o.Case("optsfmt "+t, "badtoken")
+			continue
+		}
+		obs, panicked := hlib.Catch(func() string {
+			s, err := interp.VerifC13BitsFormat(cloneVal(v), 1000)
+			if err != nil {
+				return "err"
+			}
+			if i, j := strings.IndexByte(s, '<'), strings.IndexByte(s, '>'); i == 0 && j > 0 {
+				return "ok " + s[1:j]
+			}
+			return "ok -"
+		})
+		if panicked {
+			obs = "panic"
+		}
+		o.Case("optsfmt "+t, obs)
+		o.Class("optsfmt " + t)
 	}
 }
 
